@@ -39,6 +39,7 @@ type c06Case struct {
 	CanaryTimeout             time.Duration // 0 = unset
 	Pods                      [3]c06Pod
 	CanaryAge                 time.Duration // age of the Canary condition; <0 = condition absent (first sync)
+	CanaryWasOff              bool          // the Canary condition is there with status False since CanaryAge: the set was a canary before, stopped being one (template reverted, or promoted and superseded) and is one again (same template applied again)
 	PriorPaused, PriorFailed  bool
 	PriorRestartSpan          time.Duration // <0: no PodRestarting condition; else lastUpdate-lastTransition
 	PriorRestartAgo           time.Duration // now - lastUpdate
@@ -55,7 +56,7 @@ type c06Step struct {
 
 func (k c06Case) String() string {
 	var b strings.Builder
-	fmt.Fprintf(&b, "autoPause=%v/%d autoFail=%v/%d maxSlowStart=%s maxRestartsDuration=%s canaryTimeout=%s canaryAge=%s priorPaused=%v priorFailed=%v priorRestartSpan=%s(ago %s) ann[paused=%q unpaused=%q]", k.PauseEnabled, k.P, k.FailEnabled, k.F, k.MaxSlowStart, k.MaxRestartsDuration, k.CanaryTimeout, k.CanaryAge, k.PriorPaused, k.PriorFailed, k.PriorRestartSpan, k.PriorRestartAgo, k.AnnPaused, k.AnnUnpaused)
+	fmt.Fprintf(&b, "autoPause=%v/%d autoFail=%v/%d maxSlowStart=%s maxRestartsDuration=%s canaryTimeout=%s canaryAge=%s(off=%v) priorPaused=%v priorFailed=%v priorRestartSpan=%s(ago %s) ann[paused=%q unpaused=%q]", k.PauseEnabled, k.P, k.FailEnabled, k.F, k.MaxSlowStart, k.MaxRestartsDuration, k.CanaryTimeout, k.CanaryAge, k.CanaryWasOff, k.PriorPaused, k.PriorFailed, k.PriorRestartSpan, k.PriorRestartAgo, k.AnnPaused, k.AnnUnpaused)
 	for i, p := range k.Pods {
 		if !p.Present {
 			continue
@@ -129,6 +130,9 @@ func c06Draw(rt *rapid.T) c06Case {
 		ages = append(ages, k.CanaryTimeout-3*time.Second, k.CanaryTimeout+3*time.Second)
 	}
 	k.CanaryAge = rapid.SampledFrom(ages).Draw(rt, "canaryAge")
+	if k.CanaryAge >= 0 {
+		k.CanaryWasOff = rapid.IntRange(0, 3).Draw(rt, "canaryWasOff") == 0
+	}
 	k.PriorPaused = rapid.IntRange(0, 4).Draw(rt, "priorPaused") == 0
 	k.PriorFailed = rapid.IntRange(0, 5).Draw(rt, "priorFailed") == 0
 	spans := []time.Duration{-1, -1, 0, 10 * time.Second}
@@ -265,6 +269,9 @@ func runC06Order(k c06Case, perm []int) (vs []mon.V, obs []c06Obs, err error) {
 		}
 		if k.CanaryAge >= 0 {
 			add(edsv1.ConditionTypeCanary, now.Add(-k.CanaryAge), now.Add(-k.CanaryAge), "")
+			if k.CanaryWasOff {
+				rs.Status.Conditions[len(rs.Status.Conditions)-1].Status = corev1.ConditionFalse
+			}
 		}
 		if k.PriorPaused {
 			add(edsv1.ConditionTypeCanaryPaused, now.Add(-time.Minute), now.Add(-time.Minute), "CrashLoopBackOff")
@@ -401,7 +408,7 @@ func TestC06Order(t *testing.T) {
 }
 
 func TestC06Verdict(t *testing.T) {
-	rec := evid.New("TestC06Verdict", "C06", "canary of three nodes with 0-3 up-to-date canary pods (1-2 containers, sometimes an init container status; restart counts at, below and above both thresholds; last-termination times; waiting reasons inside/outside the cannot-start set and ContainerCreating; start time around maxSlowStartDuration) x autoPause/autoFail enabled x thresholds x maxSlowStartDuration/maxRestartsDuration/canaryTimeout set or unset x prior Canary/Canary-Paused/Canary-Failed/PodRestarting conditions with ages around the limits x pause/unpause annotations, then 1-4 canary syncs through the real Reconcile with pod changes in between (stickiness, restart timeline); oracle = three-valued reference verdict; non-trivial = at least one pod and (a restart count within 1 of a threshold, a cannot-start/creating reason, or a prior condition); distinct by case rendering")
+	rec := evid.New("TestC06Verdict", "C06", "canary of three nodes with 0-3 up-to-date canary pods (1-2 containers, sometimes an init container status; restart counts at, below and above both thresholds; last-termination times; waiting reasons inside/outside the cannot-start set and ContainerCreating; start time around maxSlowStartDuration) x autoPause/autoFail enabled x thresholds x maxSlowStartDuration/maxRestartsDuration/canaryTimeout set or unset x prior Canary (True, or False since then: a set that was a canary before and is one again)/Canary-Paused/Canary-Failed/PodRestarting conditions with ages around the limits x pause/unpause annotations, then 1-4 canary syncs through the real Reconcile with pod changes in between (stickiness, restart timeline); oracle = three-valued reference verdict; non-trivial = at least one pod and (a restart count within 1 of a threshold, a cannot-start/creating reason, or a prior condition); distinct by case rendering")
 	t.Cleanup(func() {
 		if !t.Failed() {
 			rec.Done()
